@@ -1,9 +1,9 @@
 package checks
 
 import (
-	"os"
 	"fmt"
 	"math/rand"
+	"os"
 	"sort"
 	"strings"
 
@@ -153,7 +153,7 @@ func CheckC05(tier string) {
 			}
 			sort.Strings(missing)
 			rep.Violate(base.Violation{Sig: "C05/serialized/" + parkKind(o.HangDump),
-				What: fmt.Sprintf("%s :: parameterless Async providers %v can never be inside their functions at the same time: %v never start while the others (and every other Async provider) are still running; parked:\n%s", s.Describe(r.Case.In), members, missing, o.HangDump),
+				What:  fmt.Sprintf("%s :: parameterless Async providers %v can never be inside their functions at the same time: %v never start while the others (and every other Async provider) are still running; parked:\n%s", s.Describe(r.Case.In), members, missing, o.HangDump),
 				Files: caseFiles(r.Case, &r.Sc, o, nil)})
 		case o.Returned && !o.BarrierOpened:
 			// returned although members never all entered: some member was not invoked at all
